@@ -74,6 +74,12 @@ def check(c):
         return dict(**{"class": "predict_sorted"}, what="predict_sorted is not the sorted individual predictions")
     if not (numpy.all(s[:, 0] <= p + 1e-9) and numpy.all(p <= s[:, -1] + 1e-9)):
         return dict(**{"class": "min-mean-max"}, what="min <= predict <= max violated")
+    for Qi in (numpy.array([[1, 2], [3, -1], [7, 3]], dtype=numpy.int64), numpy.array([[0.25, 1.0], [2.5, -1.0]], dtype=numpy.float32)):
+        # the dtype of the query batch must not change what is stored (m_ is rarely an integer: an integer container truncates)
+        expi = numpy.array([e.predict(Qi) for e in m.estimators_], dtype=float).T
+        alli = m.predict_all(Qi)
+        if alli.shape != expi.shape or not numpy.allclose(alli, expi, rtol=0, atol=1e-4):
+            return dict(**{"class": "predict_all-dtype"}, what="predict_all on a %s batch is not the matrix of individual predictions" % Qi.dtype)
     if not (numpy.array_equal(X, X0) and numpy.array_equal(y, y0)):
         return dict(**{"class": "input-mutated"}, what="training data modified")
     return None
